@@ -4,6 +4,7 @@
    a test, not a proof.  No theorem lives here. *)
 From Memchr Require Import Base.Res Params Sub.Pair Gen.Ops Gen.CodePair Gen.CodePrefilter
   Gen.CodeByteSet Gen.CodeSuffix Gen.CodeShift Gen.CodeTwoWayNew.
+From Memchr Require Gen.CodeRabinKarp.
 Local Open Scope N_scope.
 
 Definition rk_id (b : N) : N := b.
@@ -41,3 +42,15 @@ Definition gc_twnew (x : list N) : list N :=
   gc_tw (rmap Finder_0 (rs_Finder_new (2 * length x + 2)%nat x)).
 Definition gc_twrnew (x : list N) : list N :=
   gc_tw (rmap FinderRev_0 (rs_FinderRev_new (2 * length x + 2)%nat x)).
+
+Definition gc_rknew (x : list N) : list N :=
+  match CodeRabinKarp.rs_Finder_new x with
+  | Ok f => [1; CodeRabinKarp.Hash_0 (CodeRabinKarp.Finder_hash f); CodeRabinKarp.Finder_hash_2pow f]
+  | Panic _ => [2]
+  end.
+Definition gc_rkrnew (x : list N) : list N :=
+  match CodeRabinKarp.rs_FinderRev_new x with
+  | Ok f => [1; CodeRabinKarp.Hash_0 (CodeRabinKarp.Finder_hash (CodeRabinKarp.FinderRev_0 f));
+             CodeRabinKarp.Finder_hash_2pow (CodeRabinKarp.FinderRev_0 f)]
+  | Panic _ => [2]
+  end.
